@@ -77,6 +77,16 @@ theorem c31_spaced_sound (s : List Char) (r sp : Nat) (h : SpacedRune.parse s = 
     SpacedRune.normalize s = SpacedRune.interleave sp 0 (s.filter Rune.isUpper) :=
   SpacedRune.parse_ok s r sp h
 
+/-- conversely, every string of letters and spacers that denotes a rune fitting 128 bits and a
+mask below the last letter is accepted with exactly that rune and mask (acceptance = denotation) -/
+theorem c31_spaced_complete (s : List Char) (r sp : Nat)
+    (hchars : ∀ c ∈ s, Rune.isUpper c = true ∨ SpacedRune.isSpacer c = true)
+    (hne : s.filter Rune.isUpper ≠ []) (hb : Rune.bij (s.filter Rune.isUpper) = r + 1)
+    (hr : r < 2 ^ 128) (hsp : sp < 2 ^ ((s.filter Rune.isUpper).length - 1))
+    (hnorm : SpacedRune.normalize s = SpacedRune.interleave sp 0 (s.filter Rune.isUpper)) :
+    SpacedRune.parse s = .ok (r, sp) :=
+  SpacedRune.parse_complete s r sp hchars hne hb hr hsp hnorm
+
 /-! ## `RuneId::from_str` -/
 
 /-- never panics -/
